@@ -187,6 +187,89 @@ class FaultyStream:
         return bytearray(d) if self.as_bytearray else d
 
 
+def frame_with_crc_inside(rnd, n=40):
+    """A valid frame of an unknown message type whose payload contains, at a chosen place, the very 3 bytes that are its CRC-24Q
+    (CRC is affine in those 3 bytes: solve (M + I) x = c over GF(2)).  None if the system happens to be singular."""
+    k = rnd.randrange(2, n - 3)
+    base = bytearray(payload_for(4001, n, rnd))
+    base[k:k + 3] = b"\x00\x00\x00"
+    hdr = b"\xd3" + bytes([n >> 8, n & 255])
+
+    def crc_of(x):
+        b = bytearray(base)
+        b[k:k + 3] = x.to_bytes(3, "big")
+        return crc_bytes(hdr + bytes(b))
+    c = crc_of(0)
+    cols = [crc_of(1 << j) ^ c for j in range(24)]  # column j of M
+    # rows of (M + I | c): bit i of equation
+    rows = []
+    for i in range(24):
+        coef = 0
+        for j in range(24):
+            if ((cols[j] >> i) & 1) ^ (1 if i == j else 0):
+                coef |= 1 << j
+        rows.append([coef, (c >> i) & 1])
+    x = 0
+    piv = []
+    r = 0
+    for j in range(24):
+        p = next((q for q in range(r, 24) if (rows[q][0] >> j) & 1), None)
+        if p is None:
+            continue
+        rows[r], rows[p] = rows[p], rows[r]
+        for q in range(24):
+            if q != r and (rows[q][0] >> j) & 1:
+                rows[q][0] ^= rows[r][0]
+                rows[q][1] ^= rows[r][1]
+        piv.append((r, j))
+        r += 1
+    if any(rows[q][0] == 0 and rows[q][1] for q in range(24)):
+        return None
+    for rr, j in piv:
+        if rows[rr][1]:
+            x |= 1 << j
+    b = bytearray(base)
+    b[k:k + 3] = x.to_bytes(3, "big")
+    f = frame(bytes(b))
+    return f if f[-3:] == bytes(b[k:k + 3]) else None
+
+
+class SeekableStream(FaultyStream):
+    """The same double with the random-access methods of a file / BytesIO.  A reader has no business moving the cursor: after a
+    seek() the recorded position is what the reader left, so the oracles see re-read or skipped bytes as out-of-order slices."""
+
+    def seekable(self):
+        return True
+
+    def tell(self):
+        return self.pos
+
+    rewound = 0
+
+    def seek(self, offset, whence=0):
+        old = self.pos
+        self.pos = {0: 0, 1: self.pos, 2: len(self.data)}[whence] + offset
+        self.pos = max(0, min(self.pos, len(self.data)))
+        if self.pos < old:
+            self.rewound += old - self.pos
+        return self.pos
+
+
+class BadTellStream(FaultyStream):
+    """A pipe-like stream: it has tell()/seek() attributes, but they raise (io.UnsupportedOperation is an OSError)."""
+
+    def seekable(self):
+        return False
+
+    def tell(self):
+        import io
+        raise io.UnsupportedOperation("underlying stream is not seekable")
+
+    def seek(self, offset, whence=0):
+        import io
+        raise io.UnsupportedOperation("underlying stream is not seekable")
+
+
 def wf_frame(raw: bytes) -> bool:
     return (len(raw) >= 6 and raw[0] == 0xD3 and raw[1] & 0xFC == 0 and ((raw[1] & 3) << 8 | raw[2]) == len(raw) - 6
             and crc_bytes(raw) == 0)
